@@ -31,6 +31,13 @@ func genC13(r *simrt.Rand, tier string) (Cfg, *Program) {
 	pf.GatedPct, pf.DelayPct, pf.MaxDelay = pick(r, []int{0, 40}), 40, 3
 	pf.AdFaults = r.Chance(50) // only notification duplication matters here (no ack/deq faults below)
 	pf.Releaser = 60
+	pf.PreloadPct = 35 // items already in the backend when the first consumer binds
+	if r.Chance(30) {
+		// a caller polling WaitUntilFinished takes the worker's lock over and over while
+		// notifications arrive
+		pf.Waiters, pf.WaitOps = [2]int{1, 1}, [2]int{2, 6}
+		pf.Wait = []wop{{opWUFw, 1}}
+	}
 	c, p := generate(r, pf)
 	c.Consumers = 1 + r.Intn(4)
 	for i := range c.Queues {
@@ -38,6 +45,25 @@ func genC13(r *simrt.Rand, tier string) (Cfg, *Program) {
 		// still drain it (acknowledgement / enqueue faults belong to C11)
 		c.Queues[i].FAck, c.Queues[i].FEnq = 0, 0
 		c.Queues[i].FDeq = pick(r, []int{0, 0, 25})
+	}
+	// preloaded backend and nobody submits afterwards: no notification will ever arrive,
+	// the consumers must find the items on their own when they are bound
+	hasPre := false
+	for _, sb := range p.Subs {
+		if sb.Pre {
+			hasPre = true
+		}
+	}
+	if hasPre && r.Chance(50) {
+		for ti := range p.Tasks {
+			var keep []Op
+			for _, op := range p.Tasks[ti] {
+				if op.K != opAdd && op.K != opAddAll {
+					keep = append(keep, op)
+				}
+			}
+			p.Tasks[ti] = keep
+		}
 	}
 	// half of the submissions go through a bare producer
 	for ti := range p.Tasks {
